@@ -1,6 +1,8 @@
 import HeartwoodModel.Model.ChangeGraph
 import HeartwoodModel.Driver.Util
-/-! Driver entry for C05 (shared with C06). Case: `<changes> <tipsets> ord=<ranks>`.
+/-! Driver entry for C05 (shared with C06). Case: `<changes> <tipsets> ord=<ranks> sig=<bits>`
+(`sig` = `Entry::valid_signatures()` of every change, computed by the real code; a kind written with a
+trailing `!` was stored with a forged signature).
 
 `changes` = `;`-list, change `i` = `actor:ts:parents:kind`; `parents` = `+`-list of earlier indices,
 `x` = a commit that is not a change (unloadable), `-` = none; kinds: `r` root, `c` comment, `e` edit
@@ -19,6 +21,8 @@ structure Ch where
   /-- `none` = unloadable parent -/
   parents : List (Option Nat)
   kind : String
+  /-- `Entry::valid_signatures()`, computed by the real code (`sig=` token) -/
+  sig : Bool := true
 
 /-- key used for every unloadable commit -/
 def xKey : Nat := 1000000
@@ -31,6 +35,8 @@ def parseCh (i : Nat) (s : String) : Option Ch :=
   match splitOn s ':' with
   | [a, t, ps, kind] => do
     let a ← nat? a; let t ← nat? t; let ps ← parseRefs ps '+'
+    -- a trailing `!` marks a change stored with a forged signature; the model uses the `sig=` bit
+    let kind := if kind.endsWith "!" then (kind.dropEnd 1).toString else kind
     if ps.all (fun p => match p with | some j => decide (j < i) | none => true) then
       some { idx := i, actor := a, ts := t, parents := ps, kind }
     else none
@@ -120,17 +126,26 @@ def evalTips (c : Case) (apply : List Nat → K → Ch → List (K × Ch) → Li
   | none => none
   | some none => some none
   | some (some g) =>
-    some (some (evaluate (fun _ => true) (·.ts) (fun _ => some [0]) apply (evalFuel g (c.key (some 0))) g (c.key (some 0))))
+    some (some (evaluate (·.sig) (·.ts) (fun _ => some [0]) apply (evalFuel g (c.key (some 0))) g (c.key (some 0))))
 
-def parseCase (changes ord : String) : Option Case := do
+def parseSig (s : String) (n : Nat) : Option (List Bool) :=
+  match splitOn s '=' with
+  | ["sig", r] =>
+    let bits := r.toList.map fun c => c == '1'
+    if bits.length == n && r.toList.all (fun c => c == '0' || c == '1') then some bits else none
+  | _ => none
+
+def parseCase (changes ord sig : String) : Option Case := do
   let chs ← parseChanges changes
   let ord ← parseOrd ord chs.length
+  let bits ← parseSig sig chs.length
+  let chs := (chs.zip bits).map fun (c, b) => { c with sig := b }
   if chs.all (fun ch => (accept? { chs, ord } ch).isSome || ch.idx == 0) then some { chs, ord } else none
 
 def run (args : List String) : String :=
   match args with
-  | [changes, tipsets, ord] =>
-    match parseCase changes ord, (splitOn tipsets '/').mapM (fun t => parseRefs t ',') with
+  | [changes, tipsets, ord, sig] =>
+    match parseCase changes ord sig, (splitOn tipsets '/').mapM (fun t => parseRefs t ',') with
     | some c, some tss =>
       joinWith "/" (tss.map fun tips =>
         showOut (fun s _ => "R" ++ showIdx s) (evalTips c rawApply tips) ++ "|" ++
